@@ -121,6 +121,116 @@ def rule_state_keyed(ctx, rep):
                   f"{meth} is not called with the id of the codemod being handled")
 
 
+def rule_runwide_state(ctx, rep):
+    rep.rule(
+        "R-RUNWIDE-STATE",
+        "every mutable container the execution context creates for the run (attribute initialised to an empty dict/list/set in "
+        "__init__) is partitioned per codemod: wherever it is read or written, in any module, the key is a codemod id; a run-wide "
+        "container keyed by anything else (a path, a rule) is a channel through which one codemod's work reaches the next",
+        min_instances=10,
+    )
+    c = ctx.prog.cls(CTX)
+    init = c.methods["__init__"]
+    containers = {}
+    for n in walk_no_nested(init.node):
+        if isinstance(n, (ast.Assign, ast.AnnAssign)) and n.value is not None:
+            tg = n.targets[0] if isinstance(n, ast.Assign) else n.target
+            v = n.value
+            empty = (isinstance(v, (ast.Dict, ast.List, ast.Set)) and not getattr(v, "keys", getattr(v, "elts", None))) or (
+                isinstance(v, ast.Call) and call_name(v) in ("dict", "list", "set", "defaultdict", "OrderedDict")
+            )
+            if isinstance(tg, ast.Attribute) and isinstance(tg.value, ast.Name) and tg.value.id == "self" and empty:
+                containers[tg.attr] = n
+    if len(containers) < 4:
+        raise AnalysisError(f"only {len(containers)} run-wide containers found in CodemodExecutionContext.__init__")
+
+    def codemod_key(fn: FuncInfo, k: ast.expr) -> bool:
+        if isinstance(k, ast.Name):
+            return "codemod" in k.id.lower() and k.id in fn.params()
+        if isinstance(k, ast.Attribute) and k.attr == "id":
+            base = k.value
+            return isinstance(base, ast.Name) and ("codemod" in base.id.lower() or base.id == "self")
+        return False
+
+    for fn in ctx.prog.functions.values():
+        if fn.qname == init.qname:
+            continue
+        r = ctx.resolver(fn)
+        for n in walk_no_nested(fn.node):
+            if not (isinstance(n, ast.Attribute) and n.attr in containers):
+                continue
+            recv = n.value
+            is_ctx = (isinstance(recv, ast.Name) and recv.id == "self" and fn.cls is not None and fn.cls.qname == CTX) or r.type_of(recv) == CTX or (
+                isinstance(recv, ast.Name) and recv.id in ("context", "execution_context")
+            )
+            if not is_ctx:
+                continue
+            par = ctx.parents(fn).get(id(n))
+            key = None
+            how = None
+            if isinstance(par, ast.Subscript) and par.value is n:
+                key, how = par.slice, "subscript"
+            elif isinstance(par, ast.Attribute) and par.value is n:
+                gp = ctx.parents(fn).get(id(par))
+                if isinstance(gp, ast.Call) and gp.func is par:
+                    if par.attr in ("get", "setdefault", "pop") and gp.args:
+                        key, how = gp.args[0], par.attr
+                    elif par.attr in ("values", "keys", "items"):
+                        how = "aggregate-read"  # reporting over all codemods (log_report): reads only
+                    else:
+                        how = par.attr
+            elif isinstance(par, (ast.Assign, ast.AnnAssign)) and (n in getattr(par, "targets", []) or getattr(par, "target", None) is n):
+                how = "rebind"
+            else:
+                how = "other:" + type(par).__name__
+            if how == "aggregate-read":
+                rep.instance("R-RUNWIDE-STATE", fn.qname, fn.loc(n), True, detail=f"{n.attr}:{how}")
+                continue
+            ok = key is not None and codemod_key(fn, key)
+            rep.check("R-RUNWIDE-STATE", fn.qname, fn.loc(n), ok, f"{n.attr}:{how}:{unparse(key)[:20] if key is not None else ''}",
+                      f"run-wide container `{n.attr}` is accessed via {how} with key `{unparse(key) if key is not None else '-'}`, not a codemod id: "
+                      "state that outlives a codemod and is not partitioned per codemod lets an earlier codemod alter a later one's outcome")
+
+
+def rule_detector_fresh(ctx, rep):
+    rep.rule(
+        "R-DETECTOR-FRESH",
+        "a codemod's own detector looks at the tree as it is when the codemod starts: SemgrepRuleDetector.apply returns the result of a "
+        "semgrep run on every path; the run-wide prefilter scan (taken before any rewrite) is consulted only for rule ids and file "
+        "names, never for findings/positions",
+        min_instances=3,
+    )
+    fn = ctx.prog.func("codemodder.codemods.semgrep.SemgrepRuleDetector.apply")
+    r = ctx.resolver(fn)
+    rets = [n for n in walk_no_nested(fn.node) if isinstance(n, ast.Return) and n.value is not None]
+    ok = bool(rets)
+    for rt in rets:
+        v = r.expand(rt.value)
+        is_run = isinstance(v, ast.Call) and any(getattr(t, "qname", None) == "codemodder.semgrep.run" for t in r.resolve_call(v))
+        ok = ok and is_run
+    rep.check("R-DETECTOR-FRESH", fn.qname, fn.loc(), ok, "returns-fresh-scan",
+              "some path of SemgrepRuleDetector.apply returns something other than a fresh semgrep run (stale findings whose positions pre-date earlier rewrites)")
+    allowed = {"files_for_rule", "all_rule_ids"}
+    n = 0
+    for f in ctx.prog.functions.values():
+        for node in walk_no_nested(f.node):
+            if isinstance(node, ast.Attribute) and node.attr == "semgrep_prefilter_results" and isinstance(node.ctx, ast.Load):
+                n += 1
+                par = ctx.parents(f).get(id(node))
+                use = "truthiness"
+                ok2 = True
+                if isinstance(par, ast.Attribute) and par.value is node:
+                    use = par.attr
+                    ok2 = par.attr in allowed
+                elif isinstance(par, (ast.Subscript, ast.Return, ast.Call)) and not (isinstance(par, ast.Call) and par.func is node):
+                    use = type(par).__name__
+                    ok2 = isinstance(par, ast.Call) and unparse(par.func).startswith(("bool", "len")) or False
+                rep.check("R-DETECTOR-FRESH", f.qname, f.loc(node), ok2, f"prefilter:{use}",
+                          f"the pre-run semgrep prefilter result is used through `{use}`: only rule ids / file names may be taken from it")
+    if n < 3:
+        raise AnalysisError("uses of semgrep_prefilter_results not found")
+
+
 def rule_fresh_filecontext(ctx, rep):
     rep.rule(
         "R-FRESH-FILECONTEXT",
@@ -159,6 +269,8 @@ def check(ctx, rep):
     )
     rule_sequential(ctx, rep)
     rule_state_keyed(ctx, rep)
+    rule_runwide_state(ctx, rep)
+    rule_detector_fresh(ctx, rep)
     rule_fresh_filecontext(ctx, rep)
     from .c03 import rule_no_content_cache
 
